@@ -1242,13 +1242,10 @@ fn make_patch(w: &World, cands: &[Cand], uri: &str) -> (Vec<u8>, Plan) {
                 }
             }
             Tab::F1(f) => {
-                for i in 1..=f.max_entry {
-                    if expand(f.template, &numeric_id_bytes(i as u32)) == uri {
-                        f.applied.insert(i);
-                        if f.template.contains('{') {
-                            break;
-                        }
-                    }
+                if f.template.contains('{') {
+                    f.applied.insert(c.order as u16);
+                } else {
+                    f.applied.extend(1..=f.max_entry); // one URI for the whole table
                 }
             }
         }
